@@ -9,6 +9,8 @@ open M
 structure Mode where
   /-- park a blocking pop that cannot be served (scheduler harness) instead of timing out at once -/
   park : Bool := false
+  /-- asyncio front-end (`AsyncFakeSocket`): a blocking pop that is not served pauses the parser and is re-tried by a task -/
+  async : Bool := false
   deriving Repr, Inhabited
 
 def syntaxErr : Except Err (Option Reply × List CI) := .error Msgs.SYNTAX_ERROR_MSG
@@ -181,6 +183,19 @@ def watchCmd (c : Nat) (d : Nat) (args : List Arg) (cis : List CI) : M SpecialOu
   modifyConn c fun x => { x with watches := ks.foldl (fun w key => if w.contains (d, key) then w else w ++ [(d, key)]) x.watches }
   okR .ok cis
 
+/-- `AsyncFakeSocket._blocking`: no clock is read (the time-out lives in the event loop); parking pauses the parser -/
+def blockingAsync (c : Nat) (kind : String) (keys : List Bytes)
+    (pass : Bool → M (Except Err (Option Reply))) : M (Except Err (Option Reply)) := do
+  match ← pass true with
+  | .error e => return .error e
+  | .ok (some r) => return .ok (some r)
+  | .ok none =>
+    let conn ← getConn c
+    if conn.inTx then return .ok (some .nil)
+    else
+      modifyConn c fun x => { x with paused := true, parked := some { kind := kind, keys := keys, db := conn.db, deadline := none } }
+      return .ok none
+
 /-- EVAL / EVALSHA / SCRIPT (the script is executed by the host; see `FR/Sys/Script.lean`) -/
 def scriptCmd (inner : Inner) (c : Nat) (name : String) (args : List Arg) (cis : List CI) : M SpecialOut := do
   let _ := (inner, c, args)
@@ -262,13 +277,15 @@ def special (inner : Inner) (mode : Mode) (c : Nat) (name : String) (args : List
       | .error e => return .error e
       | .ok timeout =>
         let keys := raw.dropLast
-        match ← blocking c mode.park name keys timeout (fun first => bpopPass d (name == "blpop") first keys) with
+        match ← (if mode.async then blockingAsync c name keys (fun first => bpopPass d (name == "blpop") first keys)
+                 else blocking c mode.park name keys timeout (fun first => bpopPass d (name == "blpop") first keys)) with
         | .error e => return .error e
         | .ok r => return .ok (r, cis)
   | "brpoplpush" =>
     match args with
     | [.raw src, .raw dst, .int timeout] =>
-      match ← blocking c mode.park name [src, dst] timeout (fun first => brpoplpushPass d src dst first) with
+      match ← (if mode.async then blockingAsync c name [src, dst] (fun first => brpoplpushPass d src dst first)
+               else blocking c mode.park name [src, dst] timeout (fun first => brpoplpushPass d src dst first)) with
       | .error e => return .error e
       | .ok r => return .ok (r, cis)
     | _ => return .error "model: bad args"
@@ -450,6 +467,42 @@ def timeoutConn (c : Nat) : M Unit := do
   | some _ =>
     modifyConn c fun x => { x with parked := none }
     emit c .nil
+
+/-- asyncio: the re-try task of a parked connection ran (`event.wait()` returned).  Served: the reply is queued,
+the parser resumes and processes what was pipelined behind the blocking pop.  An error raised by the pass is the reply. -/
+def wakeConnAsync (mode : Mode) (c : Nat) : M Unit := do
+  let conn ← getConn c
+  match conn.parked with
+  | none => fault "wake: connection is not parked"
+  | some p =>
+    match ← parkedPass c p with
+    | .error e =>
+      modifyConn c fun x => { x with parked := none, paused := false }
+      emit c (.err (strBytes e))
+      drain mode c ((← getConn c).buf.length + 1)
+    | .ok (some r) =>
+      modifyConn c fun x => { x with parked := none, paused := false }
+      emit c r
+      drain mode c ((← getConn c).buf.length + 1)
+    | .ok none => modifyConn c fun x => { x with parked := some { p with woken := false } }
+
+/-- asyncio: `async_timeout` fired -/
+def timeoutConnAsync (mode : Mode) (c : Nat) : M Unit := do
+  let conn ← getConn c
+  match conn.parked with
+  | none => fault "timeout: connection is not parked"
+  | some _ =>
+    modifyConn c fun x => { x with parked := none, paused := false }
+    emit c .nil
+    drain mode c ((← getConn c).buf.length + 1)
+
+/-- garbage collection of a connection object: the weak sets drop it at once -/
+def gcConn (c : Nat) : M Unit :=
+  modify fun s => { s with srv := { s.srv with
+    subs := s.srv.subs.map (fun p => (p.1, p.2.filter (· != c))),
+    psubs := s.srv.psubs.map (fun p => (p.1, p.2.filter (· != c))),
+    closedSockets := s.srv.closedSockets.filter (· != c),
+    conns := s.srv.conns.filter (·.id != c) } }
 
 def openConn (c : Nat) : M Unit :=
   modify fun s => { s with srv := { s.srv with conns := s.srv.conns ++ [{ id := c }] } }
